@@ -258,7 +258,11 @@ def run_unit(u, repo, tier, seed, relock=False, prop=None):
                 o["detail"] = "VACUOUS?: harness reported no cover property"
         elif r["verdict"] == "FAILED":
             only_unwind = r["failed_checks"] and all("unwinding assertion" in c["check"] for c in r["failed_checks"])
-            if only_unwind:
+            tool_limit = (not r["failed_checks"]) or re.search(r"Out of memory|CBMC failed with status|std::bad_alloc|Killed", r["tail"])
+            if tool_limit and not any("unwinding" not in c["check"] for c in r["failed_checks"]):
+                o["status"] = "undecided"
+                o["detail"] = "tool limit, not a refutation (CBMC ran out of memory / crashed; no failed check reported): %s" % r["tail"][-300:]
+            elif only_unwind:
                 o["status"] = "undecided"
                 o["detail"] = "unwinding assertion failed: the bound in the harness is too small for the current code"
             elif h["name"] in lock or relock:
